@@ -1,6 +1,7 @@
 package main
 
 import (
+	"go/token"
 	"fmt"
 	"os"
 	"go/types"
@@ -525,6 +526,14 @@ func (x *Exec) matchArg(env *Env, pa Expr, actual Val, heap map[string]Term) (Te
 	}
 	want := env.eval(pa)
 	if len(want.C) != len(actual.C) {
+		// a receiver that changed between value and pointer: compare the values
+		if pt, ok := types.Unalias(actual.Typ).Underlying().(*types.Pointer); ok && types.Identical(pt.Elem(), want.Typ) && len(actual.C) == 1 {
+			actual = env.st.load(actual)
+		} else if pt, ok := types.Unalias(want.Typ).Underlying().(*types.Pointer); ok && actual.Typ != nil && types.Identical(pt.Elem(), actual.Typ) && len(want.C) == 1 {
+			want = env.st.load(want)
+		}
+	}
+	if len(want.C) != len(actual.C) {
 		return TFalse, "argument component mismatch"
 	}
 	var out []Term
@@ -625,6 +634,50 @@ func (x *Exec) headerPhis(li *loopInfo) []*ssa.Phi {
 	return out
 }
 
+// indexLoopAlias: contracts of loops over slices written for `for _, x := range s` name the index of the last
+// processed element $rangeindex (go/ssa's name for it; -1 before the first iteration). When the loop has
+// been rewritten as the canonical index loop `for i := 0; ...; i++`, that value is i - 1 at every point the
+// contract is evaluated (loop entry, loop head, back edge), so $rangeindex is accepted as an alias of it.
+func (x *Exec) indexLoopAlias(li *loopInfo, phiVals map[string]Val) {
+	if _, have := phiVals["$rangeindex"]; have {
+		return
+	}
+	var cand *ssa.Phi
+	for _, ph := range x.headerPhis(li) {
+		if ph.Comment == "" || len(ph.Edges) != 2 {
+			continue
+		}
+		b, ok := ph.Type().Underlying().(*types.Basic)
+		if !ok || b.Info()&types.IsInteger == 0 {
+			continue
+		}
+		zero, step := false, false
+		for _, e := range ph.Edges {
+			if c, ok := e.(*ssa.Const); ok && c.Value != nil && c.Value.ExactString() == "0" {
+				zero = true
+			}
+			if bo, ok := e.(*ssa.BinOp); ok && bo.Op == token.ADD && bo.X == ssa.Value(ph) {
+				if c, ok := bo.Y.(*ssa.Const); ok && c.Value != nil && c.Value.ExactString() == "1" {
+					step = true
+				}
+			}
+		}
+		if zero && step {
+			if cand != nil {
+				return // ambiguous
+			}
+			cand = ph
+		}
+	}
+	if cand == nil {
+		return
+	}
+	if v, ok := phiVals["$"+cand.Comment]; ok && len(v.C) == 1 {
+		phiVals["$rangeindex"] = Val{Typ: types.Typ[types.Int], C: []Term{Sub(v.C[0], IntLit(1))}}
+		x.assumeNote("contract name $rangeindex resolved to $" + cand.Comment + " - 1 (range loop rewritten as an index loop) in " + funcKey(x.fn))
+	}
+}
+
 func (x *Exec) loopEnter(st *State, li *loopInfo, from *ssa.BasicBlock) {
 	fr := st.top()
 	if st.dryWrites != nil {
@@ -664,6 +717,7 @@ func (x *Exec) loopEnter(st *State, li *loopInfo, from *ssa.BasicBlock) {
 			}
 		}
 	}
+	x.indexLoopAlias(li, phiVals)
 	env := x.loopEnv(st, li, phiVals)
 	for _, inv := range ls.Invariants {
 		st.oblige(fmt.Sprintf("inv-init:loop%d/%d", li.ord, inv.N), x.tagsFor(inv.Tags, x.spec.Tags), env.evalBool(inv.X), "loop invariant holds on entry: "+inv.Text)
@@ -757,6 +811,7 @@ func (x *Exec) loopEnter(st *State, li *loopInfo, from *ssa.BasicBlock) {
 			}
 		}
 	}
+	x.indexLoopAlias(li, phiVals)
 	env = x.loopEnv(st, li, phiVals)
 	for _, inv := range ls.Invariants {
 		st.assume(env.evalBool(inv.X))
@@ -808,6 +863,7 @@ func (x *Exec) loopBackEdge(st *State, li *loopInfo, from *ssa.BasicBlock) {
 			}
 		}
 	}
+	x.indexLoopAlias(li, phiVals)
 	uenv := x.loopEnv(st, li, phiVals)
 	for _, gu := range ls.Updates {
 		cur, ok := st.ghosts[gu.Ghost]
